@@ -166,6 +166,8 @@ def _regen_nolock(snap):
                          ('hashc.py', [snap, os.path.join(COQ, 'Gen/HashProgs.v')]),
                          ('crcc.py', [snap, os.path.join(COQ, 'Gen/CrcProgs.v')]),
                          ('varintc.py', [snap, os.path.join(COQ, 'Gen/VarintProgs.v')]),
+                         ('splitc.py', [snap, os.path.join(COQ, 'Gen/SplitProgs.v')]),
+                         ('escc.py', [snap, os.path.join(COQ, 'Gen/EscProgs.v')]),
                          ):
         p = os.path.join(gen, script)
         if not os.path.exists(p):
